@@ -229,6 +229,13 @@ def gen(rng, n):
             c = {"op": "doc", "sid": sid, "ver": ver, "pps": pps}
             rand_meta(rng, c)
             if rng.random() < 0.3:
+                # a cost function the vehicle model of one entry does not admit is assigned (and refused)
+                j = rng.randrange(m)
+                okc = {cf for (vm, _, cf, _) in combos if vm == pps[j]["vm"]}
+                badc = sorted(x.name for x in sol.CostFunction if x.name not in okc)
+                if badc:
+                    c["refuse"] = [j, rng.choice(badc)]
+            if rng.random() < 0.3:
                 # the planning-problem id of one entry is re-assigned (a plain public attribute) after the Solution was
                 # built: the solution then reports the new id, and that is the id the document has to carry
                 c["reid"] = [rng.randrange(m), rng.choice([i for i in range(60, 90)])]
@@ -304,6 +311,17 @@ def build_solution(c):
     so = sol.Solution(sid, [r[1] for r in res], date=date_of(c), computation_time=ct, processor_name=c["pn"])
     if c.get("reid"):
         res[c["reid"][0]][1].planning_problem_id = c["reid"][1]
+    if c.get("refuse"):
+        # a setter is given a value the class documents as inadmissible: it raises, and the solution stays what it was
+        i, cost = c["refuse"]
+        p = res[i][1]
+        before = (p.vehicle_model, p.vehicle_type, p.cost_function, p.trajectory_type)
+        try:
+            p.cost_function = sol.CostFunction[cost]
+            c["_refused"] = "accepted"
+        except Exception as e:  # noqa
+            c["_refused"] = type(e).__name__
+        c["_refused_changed"] = (p.vehicle_model, p.vehicle_type, p.cost_function, p.trajectory_type) != before
     return so, res
 
 
@@ -380,6 +398,11 @@ def oracle(c):
     tys = [r[1].trajectory_type.name for r in res]
     if any(t != p["ty"] for t, p in zip(tys, c["pps"])):
         return None  # a superset class classified differently: not the combination aimed at, nothing to demand
+    if c.get("refuse") and c.get("_refused") not in (None, "accepted") and c.get("_refused_changed"):
+        p = c["pps"][c["refuse"][0]]
+        return (f"setter:refused value is kept:{p['vm']}",
+                f"cost_function = {c['refuse'][1]} on a {p['vm']} solution raises {c['_refused']} but the solution now holds it "
+                f"(the document written from it cannot be read back)")
     w = write(solution)
     if w[0] != "ok":
         return (f"write:{w[1].split(':')[0]}", f"writer raises {w[1]} for {[(p['vm'], p['ty']) for p in c['pps']]}")
@@ -740,7 +763,7 @@ def corr(ctx, cases):
     use, terms = [], []
     skipped = 0
     for c in cases:
-        if c.get("op") not in ("doc", "tree", "type") or c.get("reid"):
+        if c.get("op") not in ("doc", "tree", "type") or c.get("reid") or c.get("refuse"):
             continue    # re-assigned ids: judged by the oracle only (the model's solution is a value)
         t = coq_term(c)
         if t is None:
